@@ -67,16 +67,18 @@ Fixpoint no_wrap (r : list (Z * Z)) (idx : list Z) : Prop :=
 Definition compose_ok (a c d : Z) : Prop :=
   is_s32 (a + c) /\ is_s32 (a + d) /\ is_s32 (a - c) /\ is_s32 (a - d).
 
-(* inner bounds are non-negative and the additions do not wrap *)
+(* when both inner bounds are non-negative (otherwise the guard refuses the composition before
+   any addition) the additions do not wrap *)
 Fixpoint inner_ok (r1 r2 : list (Z * Z)) : Prop :=
   match r1, r2 with
-  | (a, _) :: t1, (c, d) :: t2 => 0 <= c /\ 0 <= d /\ compose_ok a c d /\ inner_ok t1 t2
+  | (a, _) :: t1, (c, d) :: t2 => (0 <= c -> 0 <= d -> compose_ok a c d) /\ inner_ok t1 t2
   | _, _ => True
   end.
 
 (* both inner bounds are valid indices of the outer range, in every dimension *)
 Fixpoint inner_within (r1 r2 : list (Z * Z)) : Prop :=
   match r1, r2 with
-  | (a, b) :: t1, (c, d) :: t2 => c < range_len a b /\ d < range_len a b /\ inner_within t1 t2
+  | (a, b) :: t1, (c, d) :: t2 =>
+      0 <= c < range_len a b /\ 0 <= d < range_len a b /\ inner_within t1 t2
   | _, _ => True
   end.
